@@ -203,3 +203,28 @@ def mk_doc_kwargs(fn, method):
 
 mk_doc_kwargs('iter_decode', 'iter_decode')
 mk_doc_kwargs('to_dict', 'decode')
+
+
+# ---- SchemaLoader: the base URL of the referring schema document reaches every load (it is the sandbox root when no base_url was given)
+def mk_loader(tid, qual, callee, want, note):
+    t = Target(tid, ['C12'], 'xmlschema/loaders.py', qual, note=note, assumes=['syntactic obligation on the real AST (no solver): every call of the callee passes the expected base_url expression'])
+
+    @t.symbolic
+    def _(run):
+        ex = run.exec(); pre = z3.BoolVal(True)
+        calls = [c for c in calls_to(ex.fn, callee) if isinstance(c.func, ast.Attribute) and ast.unparse(c.func.value) == 'self']
+        run.vc(f'at-least-one-{callee}-call', pre, [], z3.BoolVal(len(calls) >= 1), 'ast')
+        params = params_of(locate(ex.tree, f'SchemaLoader.{callee}'))
+        for i, c in enumerate(calls):
+            got = bind(c, params)
+            run.vc(f'{callee}-receives-the-base-url-of-the-referring-schema', pre, [], z3.BoolVal(got.get('base_url') in want), f'call {i}: base_url={got.get("base_url")}')
+        run.paths = max(1, len(calls))
+    return t
+
+
+mk_loader('loaders.import_namespace.base_url', 'SchemaLoader.import_namespace', 'import_schema', ('schema.base_url',),
+          'import_namespace hands schema.base_url to every import_schema call: the imported document is fetched (and, under allow=sandbox without an explicit base_url, confined) relative to the importing schema')
+mk_loader('loaders.load_declared_schemas.include.base_url', 'SchemaLoader.load_declared_schemas', 'include_schema', ('base_url', 'schema.base_url'),
+          'load_declared_schemas hands the base URL of the schema document to include_schema for xs:include / redefine / override')
+for _callee in ('import_schema', 'include_schema'):
+    mk_loader(f'loaders.{_callee}.base_url', f'SchemaLoader.{_callee}', 'load_schema', ('base_url',), f'{_callee} forwards its base_url argument to load_schema')
